@@ -154,39 +154,67 @@ def r3_register_frames(ctx, T, rule="C02.R3"):
     ctx.require(rule, 1)
 
 
-LOOPS = {"generate_while_instructions": ("while", "wend"),
-         "generate_do_loop_top": ("do", "loop"),
-         "generate_do_loop_bottom": ("do", "loop")}
+def _loop_emitters(prog, T):
+    """generator functions that emit a back edge: on some path a label L and later a jump to L.
+    Found by what they emit, not by name.  -> [(fn, head label name, is_for)]"""
+    out = []
+    for f in sorted(emit.generator_fns(prog), key=lambda f: f.id):
+        evs = T.evs(f)
+        heads = set()
+        for seq in emit.linear_paths(f.body, evs):
+            seen = []
+            for e in seq:
+                if e.kind == "label" and e.name is not None:
+                    seen.append(e.name)
+                elif e.kind == "jump" and e.name in seen:
+                    heads.add(e.name)
+        if heads:
+            is_for = any(e.kind == "push" and e.instr == "PushRegisters" for e in evs.values())
+            out.append((f, sorted(heads)[0], is_for))
+    return out
 
 
 def r4_loop_templates(ctx, T, rule="C02.R4"):
     prog = ctx.prog
-    for name, (head, exit_) in sorted(LOOPS.items()):
-        f = ctx.anchor_method("InstructionGenerator", name)
+    loops = _loop_emitters(prog, T)
+    for_helpers = [f for f, _h, is_for in loops if is_for]
+    for f, head, is_for in loops:
+        if is_for:
+            continue
+        construct = common.generator_construct_of(prog, f)
         evs = T.evs(f)
         ok = True
         why = ""
+        n_paths = 0
         for seq in emit.linear_paths(f.body, evs):
+            n_paths += 1
             names = [(e.kind, e.name) for e in seq if e.kind in ("label", "jump", "jump_if_false")]
             if ("label", head) not in names or ("jump", head) not in names:
                 ok, why = False, "no back-edge jump to the loop head `%s`" % head
-            if ("jump_if_false", exit_) not in names or ("label", exit_) not in names:
-                ok, why = False, "no conditional exit to `%s`" % exit_
+            back = [i for i, e in enumerate(seq) if e.kind == "jump" and e.name == head]
+            exits = [e.name for e in seq if e.kind == "jump_if_false"
+                     and any(x.kind == "label" and x.name == e.name and back and seq.index(x) > back[-1] for x in seq)]
+            if len(set(exits)) != 1:
+                ok, why = False, "no conditional exit to a label emitted after the back edge"
+                continue
+            exit_ = exits[0]
             kinds = [e.kind for e in seq]
             if kinds.count("BLOCK") != 1 or kinds.count("EXPR") != 1:
                 ok, why = False, "the body / condition is not emitted exactly once"
             # the condition is evaluated between the head label and the exit jump (inside the loop)
-            idx = {k: i for i, k in enumerate(names)}
             hi = [i for i, e in enumerate(seq) if e.kind == "label" and e.name == head]
             ei = [i for i, e in enumerate(seq) if e.kind == "jump_if_false" and e.name == exit_]
             ci = [i for i, e in enumerate(seq) if e.kind == "EXPR"]
-            bi = [i for i, e in enumerate(seq) if e.kind == "jump" and e.name == head]
-            if hi and ei and ci and bi and not (hi[0] < ci[0] < ei[0] and hi[0] < bi[0]):
+            if hi and ei and ci and back and not (hi[0] < ci[0] < ei[0] and hi[0] < back[0]):
                 ok, why = False, "the condition is not re-evaluated inside the loop"
-        ctx.decide(ok, rule, "%s:%s" % (rule, name), f.loc,
-                   "head label, condition inside the loop, conditional exit, back edge", "%s: %s" % (name, why))
+        k = sum(1 for x in ctx.obs if x.key.startswith("%s:%s" % (rule, construct)))
+        ctx.decide(ok and n_paths > 0, rule, "%s:%s%s" % (rule, construct, "#%d" % k if k else ""), f.loc,
+                   "head label, condition inside the loop, conditional exit, back edge", "%s: %s" % (f.name, why))
     # FOR: the helper jumps back to its own loop label and exits to out-of-for
-    f = ctx.anchor_method("InstructionGenerator", "generate_for_loop_instructions_positive_or_negative_step")
+    if len(for_helpers) != 1:
+        raise CheckError("%s: expected one emitter with a back edge and a register frame (FOR), found %d"
+                         % (rule, len(for_helpers)))
+    f = for_helpers[0]
     evs = T.evs(f)
     ok = True
     for seq in emit.linear_paths(f.body, evs):
